@@ -269,6 +269,14 @@ def replay_cmd(path):
             mark = "  <-- differs" if k == i else ""
             print("%-60s impl: %-40s model: %s%s" % (l[:60], a[k][:40] if k < len(a) else "", b[k][:40] if k < len(b) else "", mark))
         return 1
+    # no operation list to replay (a broken obligation, an oracle failure, a crash while generating): the
+    # replay is the check itself, on /repo as it is now
+    prop = r.get("property")
+    if prop in PROPS:
+        env = dict(os.environ)
+        env["VERIF_NO_ESCALATE"] = "1"
+        q = subprocess.run([sys.executable, os.path.abspath(__file__), prop, r.get("tier", "quick")], env=env)
+        return q.returncode
     return 0
 
 
@@ -280,12 +288,14 @@ def main():
     if prop not in PROPS:
         print("unknown property", prop)
         return 2
-    if tier == "--replay":
+    if tier == "--replay" or (len(sys.argv) >= 5 and sys.argv[3] == "--replay"):
+        # a replay answers for /repo as it is now: rebuild the harnesses and the model driver first
         with Lock(".build.lock"):
-            pass
-        return replay_cmd(sys.argv[3])
-    if len(sys.argv) >= 5 and sys.argv[3] == "--replay":
-        return replay_cmd(sys.argv[4])
+            sh([sys.executable, os.path.join(VERIF, "extract", "extract.py")])
+            sh(["cargo", "build", "--offline"], cwd=HARNESS, timeout=3000)
+            sh(["cargo", "build", "--offline"], cwd=HARNESS_W, timeout=3000)
+            sh(["lake", "build", "sfdriver"], cwd=LEAN, timeout=3000)
+        return replay_cmd(sys.argv[3] if tier == "--replay" else sys.argv[4])
     # the tier named on the command line wins; VERIF_TIER only fills in when none was given
     if tier not in ("quick", "thorough"):
         tier = os.environ.get("VERIF_TIER", "quick")
